@@ -88,6 +88,17 @@ def gen_ds(rng):
     c.update(lobpcg_topk_precondition=1, block_size=16, compression_rank=0, frequent_directions=False, average_grad=False,
              reset_preconditioner=False, best_effort_shape_interpretation=False, skip_preconditioning_dim_size_gt=4096)
     tree = {"p0": [8, 8], "p1": [9, 2]}
+  elif rng.random() < 0.14:
+    # a parameter that is EXCLUDED from preconditioning and is larger than every preconditioned statistic, next to preconditioned
+    # ones; half of these with the frequent-directions sketch and its diagnostics
+    c.update(block_size=32, skip_preconditioning_rank_lt=2, skip_preconditioning_dim_size_gt=4096, merge_small_dims_block_size=4096,
+             best_effort_shape_interpretation=False, lobpcg_topk_precondition=0, generate_training_metrics=True)
+    tree = {"p0": [4, 5], "p1": [30], "p2": [3, 2]}
+    if rng.random() < 0.5:
+      c.update(frequent_directions=True, compression_rank=1, reuse_preconditioner=True, generate_fd_metrics=True,
+               statistics_compute_steps=c["preconditioning_compute_steps"])
+    else:
+      c.update(frequent_directions=False, average_grad=False, reset_preconditioner=False)
   # pmap over one or two devices (with two, the statistics are padded to a multiple of the device count)
   return {"kind": "ds", "cfg": c, "tree": tree, "mode": mode, "hseed": int(rng.integers(0, 2 ** 31)), "pdev": int(rng.integers(1, 3))}
 
@@ -360,6 +371,8 @@ def run(spec, rec):
   rng = util.rng_for(spec["seed"], PROPERTY, spec["name"])
   gen, chk = GEN[spec["kind"]]
   for i in range(spec["n"]):
+    if i % 8 == 7:
+      util.release_compiled_code()
     if time.time() > rec.deadline:
       rec.count("dropped_for_budget", spec["n"] - i)
       break
